@@ -23,7 +23,7 @@ var blockedPkgs = map[string]bool{
 	"reflect": true, "internal/reflectlite": true, "syscall": true, "os": true, "os/exec": true, "os/signal": true,
 	"encoding/json": true, "encoding/gob": true, "encoding/xml": true, "regexp": true, "regexp/syntax": true,
 	"crypto/tls": true, "crypto/aes": true, "crypto/cipher": true, "crypto/rand": true, "math/rand": true, "math/rand/v2": true,
-	"internal/poll": true, "runtime/debug": true, "testing": true, "unique": true, "internal/godebug": true,
+	"internal/poll": true, "runtime/debug": true, "testing": true, "internal/godebug": true,
 	"github.com/fxamacker/cbor/v2": true, "github.com/gofiber/schema": true, "text/template": true, "html/template": true,
 	"compress/gzip": true, "compress/flate": true, "compress/zlib": true, "github.com/andybalholm/brotli": true,
 	"github.com/klauspost/compress/zstd": true, "github.com/klauspost/compress/gzip": true, "github.com/klauspost/compress/flate": true,
